@@ -260,7 +260,8 @@ pub fn execute(scn: &dyn Scenario, devs: &[Deviation], seed: u64) -> (Outcome, V
         let (root, j) = scn.start(env.clone());
         judge = Some(j);
         let h = env.spawn("main", 0, root);
-        tokio::time::timeout(watchdog, h).await.is_ok()
+        let r = tokio::time::timeout(watchdog, h).await.is_ok();
+        r
     });
 
     let live = ctl.live_tasks();
